@@ -3,6 +3,9 @@ use alloc::vec::Vec;
 
 use alloc::sync::Arc;
 use core::task::Waker;
+#[cfg(fc_verif_loom)]
+use loom::sync::{Mutex, MutexGuard};
+#[cfg(not(fc_verif_loom))]
 use std::sync::{Mutex, MutexGuard};
 
 use super::{InlineWakerVec, ReadinessVec};
